@@ -22,9 +22,11 @@
 (*  BIC   LL - (1/2) log(N) q (r - 1)           AIC   LL - q (r - 1)       *)
 (*  network score = SUM_v local(v, Pa(v)) + log prior (0 unless BDs)       *)
 (*                                                                         *)
-(* Gamma arguments are handled as DOUBLED integers (LogForm!LGamma2), so   *)
+(* The equivalent sample size is the rational ess = en / ed.  Gamma        *)
+(* arguments are handled as DOUBLED integers (LogForm!LGamma2), so         *)
 (* BDeu/BDs have a closed form here iff 2 ess is a multiple of q r         *)
-(* (Admissible); otherwise only relations between runs are checked.        *)
+(* (Admissible: all Gamma arguments are integers or half-integers);        *)
+(* otherwise only relations between runs are checked.                      *)
 (***************************************************************************)
 EXTENDS LogForm
 
@@ -46,20 +48,23 @@ K2Local(dom, rows, v, P) ==
     LET r == Len(dom[v]) IN
     FSumSet(Configs(dom, P), LAMBDA j : BDTerm(dom, rows, v, P, j, 2 * r, 2))
 
-BDeuAdmissible(dom, v, P, ess) == (2 * ess) % (NConfigs(dom, P) * Len(dom[v])) = 0
-BDeuLocal(dom, rows, v, P, ess) ==
+\* doubled hyper-parameter 2 (en / ed) / parts, defined when Divides
+Divides(en, ed, parts) == parts > 0 /\ (2 * en) % (parts * ed) = 0
+Hyper2(en, ed, parts) == (2 * en) \div (parts * ed)
+
+BDeuAdmissible(dom, v, P, en, ed) == Divides(en, ed, NConfigs(dom, P) * Len(dom[v]))
+BDeuLocal(dom, rows, v, P, en, ed) ==
     LET q == NConfigs(dom, P)
         r == Len(dom[v]) IN
-    FSumSet(Configs(dom, P), LAMBDA j : BDTerm(dom, rows, v, P, j, (2 * ess) \div q, (2 * ess) \div (q * r)))
+    FSumSet(Configs(dom, P), LAMBDA j : BDTerm(dom, rows, v, P, j, Hyper2(en, ed, q), Hyper2(en, ed, q * r)))
 
-BDsAdmissible(dom, rows, v, P, ess) ==
-    LET qo == Cardinality(ObservedConfigs(dom, rows, P)) IN
-    qo > 0 /\ (2 * ess) % (qo * Len(dom[v])) = 0
-BDsLocal(dom, rows, v, P, ess) ==
+BDsAdmissible(dom, rows, v, P, en, ed) ==
+    Divides(en, ed, Cardinality(ObservedConfigs(dom, rows, P)) * Len(dom[v]))
+BDsLocal(dom, rows, v, P, en, ed) ==
     LET O == ObservedConfigs(dom, rows, P)
         qo == Cardinality(O)
         r == Len(dom[v]) IN
-    FSumSet(O, LAMBDA j : BDTerm(dom, rows, v, P, j, (2 * ess) \div qo, (2 * ess) \div (qo * r)))
+    FSumSet(O, LAMBDA j : BDTerm(dom, rows, v, P, j, Hyper2(en, ed, qo), Hyper2(en, ed, qo * r)))
 
 \* ------------------------------------------------------------------ penalised likelihood family
 LogLik(dom, rows, v, P) ==
@@ -72,15 +77,15 @@ BicLocal(dom, rows, v, P) == FSub(LogLik(dom, rows, v, P), FScale(NParams(dom, v
 AicLocal(dom, rows, v, P) == FSub(LogLik(dom, rows, v, P), FConst(NParams(dom, v, P)))
 
 \* ------------------------------------------------------------------ by name
-\* ty = [t |-> "k2" | "bdeu" | "bds" | "bic" | "aic", ess |-> Nat]
+\* ty = [t |-> "k2" | "bdeu" | "bds" | "bic" | "aic", en |-> Nat, ed |-> Nat]   (ess = en / ed)
 Admissible(dom, rows, ty, v, P) ==
-    CASE ty.t = "bdeu" -> BDeuAdmissible(dom, v, P, ty.ess)
-      [] ty.t = "bds"  -> BDsAdmissible(dom, rows, v, P, ty.ess)
+    CASE ty.t = "bdeu" -> BDeuAdmissible(dom, v, P, ty.en, ty.ed)
+      [] ty.t = "bds"  -> BDsAdmissible(dom, rows, v, P, ty.en, ty.ed)
       [] OTHER -> TRUE
 Local(dom, rows, ty, v, P) ==
     CASE ty.t = "k2"   -> K2Local(dom, rows, v, P)
-      [] ty.t = "bdeu" -> BDeuLocal(dom, rows, v, P, ty.ess)
-      [] ty.t = "bds"  -> BDsLocal(dom, rows, v, P, ty.ess)
+      [] ty.t = "bdeu" -> BDeuLocal(dom, rows, v, P, ty.en, ty.ed)
+      [] ty.t = "bds"  -> BDsLocal(dom, rows, v, P, ty.en, ty.ed)
       [] ty.t = "bic"  -> BicLocal(dom, rows, v, P)
       [] ty.t = "aic"  -> AicLocal(dom, rows, v, P)
 
